@@ -41,7 +41,8 @@ func Render(c Case, perm int64) (map[string]string, error) {
 	out := map[string]string{}
 	base := c02.Base(c.Dialect)
 	// a second, independent foreign-key chain (ledgers <- invoices <- payments) next to users <- posts <- tags,
-	// so that the order in which independent dependency chains are visited matters
+	// a self reference and a join table with three parents, so that the order in which independent chains and the
+	// neighbours of one node are visited matters
 	it := c02.IntType(c.Dialect)
 	base.Tables = append(base.Tables,
 		gm.Table{Name: "ledgers", Cols: []gm.Col{{Name: "id", Type: it}}, PK: []gm.Part{{Col: "id"}}},
@@ -53,6 +54,12 @@ func Render(c Case, perm int64) (map[string]string, error) {
 			FKs:     []gm.FK{{Name: "fk_payments_invoice", Cols: []string{"invoice_id"}, RefTable: "invoices", RefCols: []string{"id"}, OnDelete: "CASCADE", OnUpdate: "CASCADE"}}},
 		gm.Table{Name: "zeta", Cols: []gm.Col{{Name: "id", Type: it}, {Name: "zid", Type: it, Null: true}}, PK: []gm.Part{{Col: "id"}},
 			FKs: []gm.FK{{Name: "fk_zeta_self", Cols: []string{"zid"}, RefTable: "zeta", RefCols: []string{"id"}}}},
+		gm.Table{Name: "aa_memberships", Cols: []gm.Col{{Name: "id", Type: it}, {Name: "user_id", Type: c02.Base(c.Dialect).Tables[0].Cols[0].Type, Null: true}, {Name: "ledger_id", Type: it, Null: true}, {Name: "zeta_id", Type: it, Null: true}},
+			PK:      []gm.Part{{Col: "id"}},
+			Indexes: []gm.Index{{Name: "idx_m_user", Parts: []gm.Part{{Col: "user_id"}}}, {Name: "idx_m_ledger", Parts: []gm.Part{{Col: "ledger_id"}}}, {Name: "idx_m_zeta", Parts: []gm.Part{{Col: "zeta_id"}}}},
+			FKs: []gm.FK{{Name: "fk_m_zeta", Cols: []string{"zeta_id"}, RefTable: "zeta", RefCols: []string{"id"}},
+				{Name: "fk_m_user", Cols: []string{"user_id"}, RefTable: "users", RefCols: []string{"id"}},
+				{Name: "fk_m_ledger", Cols: []string{"ledger_id"}, RefTable: "ledgers", RefCols: []string{"id"}}}},
 		gm.Table{Name: "alpha", Cols: []gm.Col{{Name: "id", Type: it}, {Name: "zeta_id", Type: it, Null: true}}, PK: []gm.Part{{Col: "id"}},
 			FKs: []gm.FK{{Name: "fk_alpha_zeta", Cols: []string{"zeta_id"}, RefTable: "zeta", RefCols: []string{"id"}}}})
 	edited := base.Clone()
